@@ -4,9 +4,36 @@ ROOT = os.path.dirname(os.path.dirname(os.path.abspath(__file__)))
 
 # id -> (technique, level text, level note, design ref)   (only for checks that exist)
 CHECKS = {
+ "C01": ("bounded-exhaustive enumeration of program families (operators x operand forms, statement trees by node count, scopes, destructuring, classes, generators x resume scripts, construct pairs) executed on the real engine, compared with committed V8-derived golden traces and across entry modes",
+         "Every program of eight finite program families is executed in a fresh context (plus, for a hash-selected subset, as UTF-16 input, through hand-polled evaluate_async_with_budget(1) and as a host call of a wrapped function) and its trace must equal the committed golden trace; the family is enumerated completely, nothing is sampled.",
+         "Trusts V8 11.3 as stand-in for the specification on the families (deviations go to oracle/overrides.jsonl), the shared rendering prelude, and C20 (determinism).", "DESIGN.md §3 C01"),
+ "C04": ("bounded-exhaustive enumeration of program families x subsets of the compile-time shortcut switches (cfg boa_verif hooks), differential on the real engine",
+         "Every program of the place/scope/ctl/pair (thorough: + op/ctlgen/destr) families is executed with all shortcuts on and with the listed subsets of {force-escape, no const cache, no loop hoist, no fused branch} (thorough: all 16 subsets on the place family); all traces must be equal.",
+         "Trusts that the hooks only force existing conservative paths (cross-checked against the C01 golden tables, which are produced with everything on).", "DESIGN.md §3 C04"),
  "C05": ("bounded-exhaustive enumeration of fold/dce program families x optimizer option sets, differential on the real engine",
          "Every program of the stated expression/dead-code families is executed under every listed optimizer option set and must give the trace of the empty option set; the whole finite space is enumerated, nothing sampled.",
          "Trusts: evaluation with the empty optimizer option set is the reference; harness prelude/rendering; determinism (C20).", "DESIGN.md §3 C05"),
+ "C09": ("explicit-state breadth-first search over GC operation histories (alloc/link/weak/ephemeron/weak-map/collect/resurrection) replayed on the real boa_gc, compared with a reachability reference model on every transition",
+         "All operation histories up to the stated depth over <=3 (thorough <=4) nodes are explored with state merging on the canonical model state; every transition is a fresh replay on the real collector and is compared with the reference model (finalize/drop counts, canaries, weak upgrades, ephemeron values, weak-map contents, heap statistics).",
+         "Trusts the reference model (boring sets + fix-point) and that merged histories have equal futures (merged histories are still cross-compared).", "DESIGN.md §3 C09"),
+ "C10": ("deviation-bounded schedule exploration: a collection forced at every single allocation index (thorough: every pair), periodic schedules, and during context creation, on the real engine via the allocator hook; trace equality with the no-collection run plus heap-residue check",
+         "For every program the schedules with 0, 1 (thorough: 2) forced collections at every possible allocation index are ALL executed; traces must equal the no-collection trace (weak observations masked and checked by predicates) and the heap must return to its baseline after dropping the context and one collection.",
+         "Trusts the allocation hook to be the only place where a collection can start; premature frees that are never touched are not observable (no quarantine hook).", "DESIGN.md §3 C10"),
+ "C11": ("bounded-exhaustive enumeration of code-unit sequences x constructions x operations on the real boa_string, compared with a Vec<u16> reference model and pairwise across representations",
+         "All sequences up to length 3 (thorough 4) over the unit alphabet are built through every available construction (all six representations) and every operation is compared with the plain code-unit model and across constructions; a JS-visible half does the same through script-level routes.",
+         "Trusts the Vec<u16> model operations.", "DESIGN.md §3 C11"),
+ "C13": ("bounded-exhaustive enumeration of a structured set of doubles/texts x conversion operations x radixes/digit counts on the real engine, compared with an exact integer-arithmetic reference",
+         "Every value of the structured set is pushed through every conversion of the grid (String, Number, literals, parseFloat, parseInt/toString(radix), toFixed/toExponential/toPrecision for all digit counts) and compared with exact rational arithmetic; the grid is enumerated completely.",
+         "Trusts the exact reference (cross-validated against V8 on the whole grid at authoring time and against an independent slow transliteration at run time).", "DESIGN.md §3 C13"),
+ "C15": ("explicit-state search over typed-array/buffer/DataView operation histories replayed on the real engine, merged on the byte-model state, compared with a byte-array reference model after every step",
+         "All histories up to the stated depth over 515 buffer/view worlds are executed; after every step every live view and the raw bytes must equal the Python byte model (exact modular conversions, IEEE rounding, endianness, bounds/detach rules).",
+         "Trusts the byte model (cross-validated against V8 at authoring time; documented V8 deviations follow the spec text).", "DESIGN.md §3 C15"),
+ "C16": ("bounded-exhaustive enumeration of promise-actor compositions x exhaustive schedule parameters (every budget, every drain mode, every cut set) with hand-polled futures on the real engine; all schedules must agree and equal the committed V8-derived order",
+         "Every composition of <=3 (thorough <=4) actors from a 31-actor alphabet is run under every listed budget / drain mode / split; all schedules of a program must give one trace, equal to the golden order, every callback id exactly once.",
+         "Trusts V8 as the spec order for <=3 actors and the FIFO merge model (re-checked against every golden entry each run) beyond.", "DESIGN.md §3 C16"),
+ "C20": ("explicit enumeration of (program, prior-history) pairs: each history is replayed in one process on the real engine; byte-identical traces required; realm sabotage and cross-realm intrinsic probes inside one context",
+         "A pool of programs is evaluated after each of nine prior histories on the same thread (other programs, the program itself, a script that sabotages every reachable intrinsic, 100 dropped contexts, GC-heavy and interning-heavy programs), in a second process, and in realms of one context whose other realm was sabotaged; every trace must equal the fresh-process trace; cross-realm objects must report their own realm's intrinsics.",
+         "Premise of all self-differential checks; two OS threads in one process are not exercised.", "DESIGN.md §3 C20"),
 }
 PENDING_REASON = "check not built yet in this round (design in DESIGN.md §3); will be claimed when its machinery exists"
 
